@@ -738,6 +738,38 @@ fn run_message(ctx: &mut Ctx) {
                 ctx.oracle("modified_never_clean_eof", site, &format!("trunc@{t} msg={}", hx(&msg[..t])), !r.1, &show(&r));
                 ctx.stat("message:truncate");
             }
+            // the container's header declares MORE octets than follow (a truncation, seen from the
+            // header), read in CheckFirst mode with the cap around the amount that is present: the
+            // cap probe must not take the reader's failure for the end of the data
+            if !v2 {
+                if let (_, Some((body, _))) = crate::props::c17::real_deframe(&msg) {
+                    for over in [1usize, 3, 40] {
+                        let declared = body.len() + over;
+                        let mut m = vec![0xC0 | 18];
+                        m.extend(crate::frame::new_len_min(declared));
+                        m.extend_from_slice(&body);
+                        // body = version octet + ciphertext
+                        let ct_len = body.len() - 1;
+                        let mut caps: Vec<usize> = (ct_len.saturating_sub(24)..=ct_len + 3).collect();
+                        caps.extend([1 << 20]);
+                        for max in caps {
+                            let r = guarded(|| {
+                                use pgp::composed::{DecryptionOptions, TheRing};
+                                let Ok(mm) = Message::from_bytes(&m[..]) else { return (vec![], false) };
+                                let opts = DecryptionOptions::new().set_seipdv1_read_mode(Seipdv1ReadMode::CheckFirst { max_message_size: max });
+                                let ring = TheRing { secret_keys: vec![], key_passwords: vec![], message_password: vec![], session_keys: vec![sk()], decrypt_options: opts };
+                                let Ok((d, _)) = mm.decrypt_the_ring(ring, true) else { return (vec![], false) };
+                                consume(d, Pattern::ReadToEnd)
+                            });
+                            let r = r.unwrap_or((b"PANIC".to_vec(), true));
+                            let input = format!("declared={declared} present={} max_message_size={max} msg={}", body.len(), hx(&m));
+                            ctx.oracle("modified_never_clean_eof", "Message::decrypt_the_ring (SEIPDv1, header declares more than follows, CheckFirst)", &input, !r.1, &show(&r));
+                            ctx.oracle("checkfirst_releases_nothing", "Message::decrypt_the_ring (SEIPDv1, header declares more than follows, CheckFirst)", &input, r.0.is_empty(), &show(&r));
+                            ctx.stat("message:overdeclared_checkfirst");
+                        }
+                    }
+                }
+            }
             // appended bytes *inside* the container: re-frame the packet body with extra octets
             if let (_, Some((body, _))) = crate::props::c17::real_deframe(&msg) {
                 for extra in [1usize, 2, 16, 22] {
